@@ -42,6 +42,8 @@ BgUnset(op, rt) == IF op \notin {"nil", "background"} THEN "op" ELSE IF rt # "ni
 InvBgUnset   == phase = "ctx" => CtxAllowed(cx.op, cx.rt, CtxSeen(BgUnset(cx.op, cx.rt), cx.op, cx.rt))
 InvIsolated  == Isolated(ms) /\ \A r \in DOMAIN ms.at, t \in DefaultTypes \cup {"x/unregistered"} : CodeMLookup(ms, r, t) = OwnLookup(ms, r, t)
 InvBody      == \A d \in BOOLEAN, z \in BodySizes : BodyAllowed(d, z, CodeBodySeen(d, z))
+InvStutter   == \A r, s \in BOOLEAN, z \in BodySizes : StutterBodySeen(r, s, z) = z
+InvStutterEOF == \A r, s \in BOOLEAN, z \in BodySizes : StutterIsEOF(r, s, z) = z                            \* mutant: must violate
 InvDebugCaps == \A d \in BOOLEAN, z \in BodySizes : BodyAllowed(d, z, DebugCapsBody(d, z))              \* mutant: must violate
 InvStickyCtx == \A o \in BOOLEAN, c1, c2 \in BOOLEAN :                                                    \* mutant: must violate
                   StickyOpCtxSeen(o, [id |-> 1, cancelled |-> c1]) = OpCtxSeen(o, [id |-> 2, cancelled |-> c2])
